@@ -166,6 +166,15 @@ class Sim:
                 return
             except SimAbort:
                 return
+            except BaseException as ex:
+                # e.g. a simulated signal delivered while the entity was already leaving: the entity is
+                # over, and the baton must be handed on whatever happened
+                if not self.dead and e.state not in ('done', 'killed') and self.current is e:
+                    self.ev('entity-crashed', e.name, type(ex).__name__)
+                    try:
+                        self.exit_entity(e, 1)
+                    except (_Frozen, SimAbort):
+                        pass
             finally:
                 self.by_thread.pop(threading.get_ident(), None)
 
